@@ -23,6 +23,7 @@ import (
 	"flag"
 	"fmt"
 	"go/ast"
+	"go/constant"
 	"go/parser"
 	"go/token"
 	"math/big"
@@ -338,6 +339,7 @@ const (
 	kF       // float64 = Coq primitive float
 	kOptZ    // int64(f) of a float64 = F64.Ztrunc_f f : option Z; can be bound and returned, not computed with
 	kUntyped // an untyped constant (never the type of a variable)
+	kFInt    // integer translator: a float64 local holding an integer by construction (math.Abs(float64(e)), float64(e)); its code is that integer
 )
 
 type typ struct {
@@ -364,6 +366,8 @@ func (a typ) String() string {
 		return "int64 converted from a float64"
 	case kUntyped:
 		return "untyped constant"
+	case kFInt:
+		return "float64 holding an integer"
 	}
 	return "opaque"
 }
@@ -384,6 +388,8 @@ func (a typ) coq() string {
 		return "float"
 	case kOptZ:
 		return "(option Z)"
+	case kFInt:
+		return "Z"
 	}
 	return "?"
 }
@@ -455,13 +461,14 @@ type fctx struct {
 	body    *ast.BlockStmt
 	// float mode (float.go)
 	fmode         bool
-	partial       bool     // the definition is a slice or a loop body: no return statement is translated
-	lenient       bool     // struct types: fields that are neither int64 nor float64 are left out instead of rejecting the type
-	intPow        bool     // float-mode machinery used for an integer kernel: int64(math.Pow(2, float64(e))) is the integer idiom
-	tmpCnt        int      // int64 mode: counter of the names of intermediate results
-	unsignedCount bool     // int64 mode: the shift count just translated was wrapped in uint64(..)
-	libm          bool     // a libm function (or a callee that takes the record) is used
-	recvOut       []string // pointer receiver: Coq names of its fields, returned in front of the results
+	partial       bool          // the definition is a slice or a loop body: no return statement is translated
+	curFunc       *ast.FuncDecl // the function being translated (for constants declared inside it)
+	lenient       bool          // struct types: fields that are neither int64 nor float64 are left out instead of rejecting the type
+	intPow        bool          // float-mode machinery used for an integer kernel: int64(math.Pow(2, float64(e))) is the integer idiom
+	tmpCnt        int           // int64 mode: counter of the names of intermediate results
+	unsignedCount bool          // int64 mode: the shift count just translated was wrapped in uint64(..)
+	libm          bool          // a libm function (or a callee that takes the record) is used
+	recvOut       []string      // pointer receiver: Coq names of its fields, returned in front of the results
 }
 
 func (c *fctx) fail(n ast.Node, format string, a ...interface{}) {
@@ -630,6 +637,12 @@ func (c *fctx) isFloatExpr(sc *scope, e ast.Expr) bool {
 		return c.isFloatExpr(sc, x.X)
 	case *ast.CallExpr:
 		return isConv(sc, x.Fun, "float64") || isMath(c, sc, x.Fun, "Pow") || isMath(c, sc, x.Fun, "Abs")
+	case *ast.Ident:
+		if sc != nil {
+			if v := sc.lookup(x.Name); v != nil {
+				return v.t.k == kFInt
+			}
+		}
 	}
 	return false
 }
@@ -640,6 +653,23 @@ func (c *fctx) floatInt(sc *scope, e ast.Expr) string {
 	switch x := e.(type) {
 	case *ast.ParenExpr:
 		return c.floatInt(sc, x.X)
+	case *ast.Ident:
+		// a float64 local that holds an integer by construction (x := math.Abs(float64(e))), or a named literal constant
+		if sc != nil {
+			if v := sc.lookup(x.Name); v != nil {
+				if v.t.k == kFInt {
+					return v.coq
+				}
+				c.fail(e, "the variable %s (type %s) in a floating-point expression", x.Name, v.t)
+			}
+		}
+		if lit, neg := c.literalOf(x, c.curFunc, 0); lit != nil && !neg {
+			return c.floatInt(sc, lit)
+		}
+	case *ast.SelectorExpr:
+		if lit, neg := c.literalOf(x, nil, 0); lit != nil && !neg {
+			return c.floatInt(sc, lit)
+		}
 	case *ast.BasicLit:
 		if x.Kind == token.INT {
 			return intLit(c, x)
@@ -657,13 +687,16 @@ func (c *fctx) floatInt(sc *scope, e ast.Expr) string {
 			if t.k != kZ {
 				c.fail(e, "float64(..) of a non-int64 value")
 			}
+			if t.m {
+				c.fail(e, "float64(..) of a computed value (int64 mode: assign it to a variable first)")
+			}
 			return code
 		case isMath(c, sc, x.Fun, "Abs") && len(x.Args) == 1:
 			return "(Z.abs " + c.floatInt(sc, x.Args[0]) + ")"
 		case isMath(c, sc, x.Fun, "Pow") && len(x.Args) == 2:
 			base := c.floatInt(sc, x.Args[0])
-			if _, isLit := unparen(x.Args[0]).(*ast.BasicLit); !isLit {
-				c.fail(e, "math.Pow with a base that is not a literal")
+			if lit, neg := c.literalOf(x.Args[0], c.curFunc, 0); lit == nil || neg {
+				c.fail(e, "math.Pow with a base that is not a literal (or a named literal constant)")
 			}
 			if b, _ := new(big.Int).SetString(base, 10); b == nil || b.Cmp(big.NewInt(2)) < 0 {
 				c.fail(e, "math.Pow with a literal base below 2")
@@ -856,6 +889,10 @@ func (c *fctx) expr(sc *scope, e ast.Expr) (string, typ) {
 		}
 		c.fail(e, "selector expression %s", exprString(e))
 	case *ast.CallExpr:
+		if c.isFloatExpr(sc, x) && !isMath(c, sc, x.Fun, "Pow") {
+			// float64(e), math.Abs(float64(e)): a float64 that is an integer by construction; it can be bound to a local and used in the Pow idiom
+			return c.floatInt(sc, x), typ{k: kFInt}
+		}
 		return c.call(sc, x)
 	}
 	c.fail(e, "expression of kind %s", nodeKind(e))
@@ -1108,6 +1145,12 @@ func (c *fctx) block(ss []ast.Stmt, sc *scope, k func() string) string {
 			cond = n
 		}
 		return pre + "if " + cond + "\nthen (" + thenCode + ")\nelse (" + elseCode + ")"
+	case *ast.SwitchStmt:
+		// `switch { case c1: .. case c2: .. default: .. }` is the chain if c1 {..} else if c2 {..} else {..}
+		if is := c.switchAsIf(x); is != nil {
+			return c.block(append([]ast.Stmt{is}, rest...), sc, k)
+		}
+		c.fail(s, "switch with a tag or an initialiser")
 	case *ast.ReturnStmt:
 		if c.prefix {
 			c.fail(s, "return before the result loop")
@@ -1126,6 +1169,53 @@ func (c *fctx) block(ss []ast.Stmt, sc *scope, k func() string) string {
 	}
 	c.fail(s, "statement of kind %s", nodeKind(s))
 	return ""
+}
+
+// a tagless switch without fallthrough / break as an if / else-if chain (cases are tried in source order, default last wherever it stands)
+func (c *fctx) switchAsIf(x *ast.SwitchStmt) ast.Stmt {
+	if x.Tag != nil || x.Init != nil {
+		return nil
+	}
+	var cases []*ast.CaseClause
+	var def *ast.CaseClause
+	for _, st := range x.Body.List {
+		cc := st.(*ast.CaseClause)
+		for _, b := range cc.Body {
+			ast.Inspect(b, func(n ast.Node) bool {
+				if br, ok := n.(*ast.BranchStmt); ok && (br.Tok == token.FALLTHROUGH || br.Tok == token.BREAK) {
+					c.fail(br, "%s inside a switch", br.Tok)
+				}
+				return true
+			})
+		}
+		if cc.List == nil {
+			if def != nil {
+				c.fail(cc, "two default clauses")
+			}
+			def = cc
+			continue
+		}
+		cases = append(cases, cc)
+	}
+	var tail ast.Stmt
+	if def != nil {
+		tail = &ast.BlockStmt{Lbrace: def.Pos(), List: def.Body, Rbrace: def.End()}
+	}
+	for i := len(cases) - 1; i >= 0; i-- {
+		cc := cases[i]
+		cond := cc.List[0]
+		for _, e := range cc.List[1:] {
+			cond = &ast.BinaryExpr{X: cond, OpPos: e.Pos(), Op: token.LOR, Y: e}
+		}
+		tail = &ast.IfStmt{If: cc.Pos(), Cond: cond, Body: &ast.BlockStmt{Lbrace: cc.Colon, List: cc.Body, Rbrace: cc.End()}, Else: tail}
+	}
+	if tail == nil {
+		return &ast.EmptyStmt{Semicolon: x.Pos()}
+	}
+	if _, isBlock := tail.(*ast.BlockStmt); isBlock && len(cases) == 0 {
+		return tail
+	}
+	return tail
 }
 
 func (c *fctx) ret(x *ast.ReturnStmt, sc *scope) string {
@@ -1427,11 +1517,24 @@ func (c *fctx) resultLoop(x *ast.ForStmt, sc *scope) string {
 	if cond.Op == token.LSS {
 		last, tl = c.binary(x, token.SUB, last, tl, "1", typ{k: kZ})
 	}
-	post, ok := x.Post.(*ast.IncDecStmt)
-	if !ok || post.Tok != token.INC {
+	// v++ or v += 1
+	var stepped ast.Expr
+	switch post := x.Post.(type) {
+	case *ast.IncDecStmt:
+		if post.Tok == token.INC {
+			stepped = post.X
+		}
+	case *ast.AssignStmt:
+		if post.Tok == token.ADD_ASSIGN && len(post.Lhs) == 1 && len(post.Rhs) == 1 {
+			if lit, ok := unparen(post.Rhs[0]).(*ast.BasicLit); ok && lit.Kind == token.INT && lit.Value == "1" {
+				stepped = post.Lhs[0]
+			}
+		}
+	}
+	if stepped == nil {
 		c.fail(x, "result loop step (expected %s++)", v.Name)
 	}
-	if pid, ok := unparen(post.X).(*ast.Ident); !ok || pid.Name != v.Name {
+	if pid, ok := unparen(stepped).(*ast.Ident); !ok || pid.Name != v.Name {
 		c.fail(x, "result loop step (expected %s++)", v.Name)
 	}
 	// the body must not write the loop variable or any translated variable
@@ -1530,7 +1633,7 @@ func (t *translator) function(tg target, from ast.Node) *sig {
 	t.used[p.names[p.fileOf[fd]]] = true
 
 	c := &fctx{t: t, pkg: p, imp: t.imports(p.files[p.fileOf[fd]]), label: label, declPos: map[token.Pos]string{}, nameCnt: map[string]int{},
-		prefix: tg.prefix, body: fd.Body}
+		prefix: tg.prefix, body: fd.Body, curFunc: fd}
 	c.top = newScope(nil)
 	s := &sig{coq: tg.out}
 	if s.coq == "" {
@@ -1851,8 +1954,8 @@ func (t *translator) oneFunc(dir, recv, name string) (*pkgInfo, *ast.FuncDecl) {
 
 // `if v >= N { x = HighZoomConst ... }` in the line function: the zoom switches
 func (t *translator) lineSwitches() {
-	p, fd := t.oneFunc(linePkg, "", lineFunc)
-	file := p.names[p.fileOf[fd]]
+	p, fd0 := t.oneFunc(linePkg, "", lineFunc)
+	file := p.names[p.fileOf[fd0]]
 	label := linePkg + "." + lineFunc
 	type sw struct {
 		v   string
@@ -1860,56 +1963,137 @@ func (t *translator) lineSwitches() {
 		pos token.Pos
 	}
 	var found []sw
-	ast.Inspect(fd.Body, func(n ast.Node) bool {
-		is, ok := n.(*ast.IfStmt)
-		if !ok || is.Init != nil {
-			return true
+	// the switches may sit in the line function or in a helper of the same file
+	var fds []*ast.FuncDecl
+	for i, f := range p.files {
+		if p.names[i] != file {
+			continue
 		}
-		// body: only assignments whose right-hand sides are package constants
-		if len(is.Body.List) == 0 {
-			return true
-		}
-		for _, s := range is.Body.List {
-			as, ok := s.(*ast.AssignStmt)
-			if !ok || as.Tok != token.ASSIGN || len(as.Lhs) != 1 || len(as.Rhs) != 1 {
-				return true
-			}
-			id, ok := as.Rhs[0].(*ast.Ident)
-			if !ok {
-				return true
-			}
-			if _, isConst := p.consts[id.Name]; !isConst {
-				return true
+		for _, d := range f.Decls {
+			if fd, ok := d.(*ast.FuncDecl); ok && fd.Body != nil {
+				fds = append(fds, fd)
 			}
 		}
-		be, ok := unparen(is.Cond).(*ast.BinaryExpr)
-		if !ok {
-			failf("%s: function %s: unsupported construct: threshold switch with the condition %s (expected `zoom >= literal`)", relpos(is.Pos()), label, exprString(is.Cond))
-		}
-		id, ok1 := unparen(be.X).(*ast.Ident)
-		lit, ok2 := unparen(be.Y).(*ast.BasicLit)
-		if !ok1 || !ok2 || lit.Kind != token.INT || (be.Op != token.GEQ && be.Op != token.GTR) || is.Else != nil {
-			failf("%s: function %s: unsupported construct: threshold switch with the condition %s (expected `zoom >= literal`, no else)", relpos(is.Pos()), label, exprString(is.Cond))
-		}
-		v, _ := new(big.Int).SetString(strings.ReplaceAll(lit.Value, "_", ""), 0)
-		if v == nil {
-			failf("%s: function %s: unsupported construct: literal %s", relpos(lit.Pos()), label, lit.Value)
-		}
-		if be.Op == token.GTR {
-			v = new(big.Int).Add(v, big.NewInt(1))
-		}
-		found = append(found, sw{id.Name, v, is.Pos()})
-		return true
-	})
-	if len(found) != 2 || found[0].v == found[1].v {
-		failf("%s: function %s: unsupported construct: %d threshold switches of the form `if zoom >= literal { minima = Constant }` found, 2 on different variables expected", relpos(fd.Pos()), label, len(found))
 	}
-	for _, s := range found {
-		t.rawConst("LineSwitch_"+s.v, "Z", zlit(s.n), fmt.Sprintf("%s: the high-zoom thresholds are used when %s >= this value", label, s.v), file)
+	for _, fd := range fds {
+		c := &fctx{t: t, pkg: p, imp: t.imports(p.files[p.fileOf[fd]]), label: label}
+		ast.Inspect(fd.Body, func(n ast.Node) bool {
+			is, ok := n.(*ast.IfStmt)
+			if !ok || is.Init != nil {
+				return true
+			}
+			// body: only assignments whose right-hand sides are package constants
+			if len(is.Body.List) == 0 {
+				return true
+			}
+			for _, s := range is.Body.List {
+				as, ok := s.(*ast.AssignStmt)
+				if !ok || as.Tok != token.ASSIGN || len(as.Lhs) != 1 || len(as.Rhs) != 1 {
+					return true
+				}
+				id, ok := as.Rhs[0].(*ast.Ident)
+				if !ok {
+					return true
+				}
+				if _, isConst := p.consts[id.Name]; !isConst {
+					return true
+				}
+			}
+			be, ok := unparen(is.Cond).(*ast.BinaryExpr)
+			if !ok {
+				failf("%s: function %s: unsupported construct: threshold switch with the condition %s (expected `zoom >= constant`)", relpos(is.Pos()), label, exprString(is.Cond))
+			}
+			x, y, op := unparen(be.X), unparen(be.Y), be.Op
+			if _, isVar := y.(*ast.Ident); isVar && c.constEval(nil, x) != nil && c.constEval(nil, y) == nil {
+				// constant on the left: mirror
+				x, y = y, x
+				op = map[token.Token]token.Token{token.LSS: token.GTR, token.LEQ: token.GEQ, token.GTR: token.LSS, token.GEQ: token.LEQ}[op]
+			}
+			id, ok1 := x.(*ast.Ident)
+			cv := c.constEval(nil, y) // a literal or a named integer constant
+			if !ok1 || cv == nil || cv.float || (op != token.GEQ && op != token.GTR) || is.Else != nil {
+				failf("%s: function %s: unsupported construct: threshold switch with the condition %s (expected `zoom >= integer constant`, no else)", relpos(is.Pos()), label, exprString(is.Cond))
+			}
+			iv := constant.ToInt(cv.v)
+			v, _ := new(big.Int).SetString(iv.ExactString(), 10)
+			if iv.Kind() != constant.Int || v == nil {
+				failf("%s: function %s: unsupported construct: threshold %s", relpos(y.Pos()), label, exprString(y))
+			}
+			if op == token.GTR {
+				v = new(big.Int).Add(v, big.NewInt(1))
+			}
+			found = append(found, sw{id.Name, v, is.Pos()})
+			return true
+		})
+	}
+	if len(found) != 2 || found[0].v == found[1].v {
+		failf("%s: function %s: unsupported construct: %d threshold switches of the form `if zoom >= constant { minima = Constant }` found in %s, 2 on different variables expected", relpos(fd0.Pos()), label, len(found), file)
+	}
+	// by role: the first switch in the source is the horizontal one, the second the vertical one (whatever the variables are called)
+	for i, s := range found {
+		name := []string{"LineSwitch_hZoom", "LineSwitch_vZoom"}[i]
+		t.rawConst(name, "Z", zlit(s.n), fmt.Sprintf("%s: the high-zoom thresholds are used when %s >= this value", label, s.v), file)
 	}
 }
 
 // Point.SetLat: the latitude limit literal of `math.Abs(lat) > L` and the scale of math.Pow(10, 10.0)
+// the literal a constant expression stands for: a literal, -literal, or a constant (declared in the function fd, in the package, in another package of
+// the module) whose value is one; nil if it is anything else
+func (c *fctx) literalOf(e ast.Expr, fd *ast.FuncDecl, depth int) (*ast.BasicLit, bool) {
+	if depth > 20 {
+		return nil, false
+	}
+	switch x := unparen(e).(type) {
+	case *ast.BasicLit:
+		return x, false
+	case *ast.UnaryExpr:
+		if x.Op == token.SUB || x.Op == token.ADD {
+			l, neg := c.literalOf(x.X, fd, depth+1)
+			if x.Op == token.SUB {
+				neg = !neg
+			}
+			return l, neg
+		}
+	case *ast.Ident:
+		// a constant declared inside the function
+		var local ast.Expr
+		if fd != nil && fd.Body != nil {
+			ast.Inspect(fd.Body, func(n ast.Node) bool {
+				gd, ok := n.(*ast.GenDecl)
+				if !ok || gd.Tok != token.CONST {
+					return true
+				}
+				for _, sp := range gd.Specs {
+					vs := sp.(*ast.ValueSpec)
+					for i, nm := range vs.Names {
+						if nm.Name == x.Name && i < len(vs.Values) {
+							local = vs.Values[i]
+						}
+					}
+				}
+				return true
+			})
+		}
+		if local != nil {
+			return c.literalOf(local, fd, depth+1)
+		}
+		if cd, ok := c.pkg.consts[x.Name]; ok && cd.expr != nil && !cd.iota_ {
+			c.t.used[c.pkg.names[cd.file]] = true
+			return c.literalOf(cd.expr, nil, depth+1)
+		}
+	case *ast.SelectorExpr:
+		if dir, ok := c.pkgOf(nil, x.X); ok && !strings.HasPrefix(dir, "\x00") {
+			p := c.t.load(dir)
+			if cd, ok := p.consts[x.Sel.Name]; ok && cd.expr != nil && !cd.iota_ {
+				c.t.used[p.names[cd.file]] = true
+				sub := &fctx{t: c.t, pkg: p, imp: c.t.imports(p.files[cd.file]), label: c.label}
+				return sub.literalOf(cd.expr, nil, depth+1)
+			}
+		}
+	}
+	return nil, false
+}
+
 func (t *translator) setLatConsts() {
 	p, fd := t.oneFunc(coordPkg, setLatRecv, setLatFunc)
 	file := p.names[p.fileOf[fd]]
@@ -1920,11 +2104,18 @@ func (t *translator) setLatConsts() {
 	ast.Inspect(fd.Body, func(n ast.Node) bool {
 		switch x := n.(type) {
 		case *ast.BinaryExpr:
-			call, ok := unparen(x.X).(*ast.CallExpr)
+			lhs, rhs, op := unparen(x.X), unparen(x.Y), x.Op
+			if call, ok := rhs.(*ast.CallExpr); ok && isMath(c, nil, call.Fun, "Abs") {
+				// limit < math.Abs(lat): mirror
+				lhs, rhs = rhs, lhs
+				op = map[token.Token]token.Token{token.LSS: token.GTR, token.LEQ: token.GEQ, token.GTR: token.LSS, token.GEQ: token.LEQ}[op]
+			}
+			call, ok := lhs.(*ast.CallExpr)
 			if ok && isMath(c, nil, call.Fun, "Abs") {
-				lit, ok := unparen(x.Y).(*ast.BasicLit)
-				if !ok || x.Op != token.GTR || (lit.Kind != token.FLOAT && lit.Kind != token.INT) {
-					c.fail(x, "latitude limit test %s (expected math.Abs(lat) > literal)", exprString(x))
+				// the limit: a literal, or a named constant (of the function, of the package, of another package of the module) that is one
+				lit, neg := c.literalOf(rhs, fd, 0)
+				if lit == nil || neg || op != token.GTR || (lit.Kind != token.FLOAT && lit.Kind != token.INT) {
+					c.fail(x, "latitude limit test %s (expected math.Abs(lat) > literal or named literal constant)", exprString(x))
 				}
 				m, e := decimal(c, lit)
 				limits = append(limits, decPair(m, e))
